@@ -75,6 +75,9 @@ pub enum Fault {
     ByteSet(Field, i32, u8),
     /// detached tag made longer by these bytes (for the allocating forms: same as Extend)
     TagExtend(B),
+    /// known-plaintext adversary: the body is replaced by the *plaintext* of the i-th record of the
+    /// same sender context, the tag by that record's tag (or kept)
+    PlaintextAsBody(usize, bool),
 }
 
 #[derive(Clone, Copy, Debug, PartialEq, Eq, Serialize, Deserialize, Hash)]
